@@ -69,6 +69,7 @@ impl Tr {
 }
 
 /// Compressed offset -> flat uncompressed offset table of a BGZF document.
+#[derive(Clone)]
 pub struct VMap {
     members: Vec<(u64, u64, u64)>,
     flen: u64,
@@ -147,8 +148,9 @@ fn at(t: &mut Tr, vm: Option<&VMap>, v: Option<bgzf::VirtualPosition>) -> String
 pub enum Script {
     /// Sequential read of the whole document through API number `.0` (see `api_name`).
     Seq(u8),
-    /// Header, then the given region queries one after the other on the same reader.
-    Query(Vec<String>),
+    /// Header, then the given region queries one after the other on the same reader (`*` =
+    /// `query_unmapped`). The label names the shape of the list for the fingerprint.
+    Query(&'static str, Vec<String>),
     /// Header, then `query_unmapped`.
     Unmapped,
     /// Header, one record sequentially, then a query, then sequential reading continues.
@@ -166,13 +168,34 @@ pub struct RCase {
     pub name: String,
     pub bytes: Arc<Vec<u8>>,
     pub vmap: Option<VMap>,
-    pub index: Option<IndexData>,
+    pub index: Option<Arc<IndexData>>,
     pub scripts: Vec<Script>,
     /// The synchronous trace of every script (the specification).
     pub expect: Vec<Tr>,
     pub lim: Limits,
     /// The async reader sits on the async BGZF reader and takes a worker count.
     pub workers_apply: bool,
+}
+
+impl RCase {
+    /// The same case with only the scripts selected by `keep` (None when nothing is left).
+    pub fn restricted(&self, keep: &dyn Fn(&Script) -> bool) -> Option<RCase> {
+        let idx: Vec<usize> = (0..self.scripts.len()).filter(|&i| keep(&self.scripts[i])).collect();
+        if idx.is_empty() {
+            return None;
+        }
+        Some(RCase {
+            format: self.format,
+            name: self.name.clone(),
+            bytes: self.bytes.clone(),
+            vmap: self.vmap.clone(),
+            index: self.index.clone(),
+            scripts: idx.iter().map(|&i| self.scripts[i].clone()).collect(),
+            expect: idx.iter().map(|&i| self.expect[i].clone()).collect(),
+            lim: self.lim,
+            workers_apply: self.workers_apply,
+        })
+    }
 }
 
 pub fn api_name(format: Format, api: u8) -> &'static str {
@@ -197,7 +220,7 @@ pub fn api_name(format: Format, api: u8) -> &'static str {
 pub fn script_name(format: Format, s: &Script) -> String {
     match s {
         Script::Seq(a) => format!("seq-{}", api_name(format, *a)),
-        Script::Query(_) => "query".into(),
+        Script::Query(label, _) => format!("query-{label}"),
         Script::Unmapped => "query_unmapped".into(),
         Script::Mixed(_) => "read-query-read".into(),
     }
@@ -239,19 +262,19 @@ fn samgz_index(doc: &Doc) -> Option<IndexData> {
 /// Builds the reader case of a corpus document (None: the format has no async reader).
 pub fn make_rcase(docs: &[Doc], doc: &Doc) -> Option<RCase> {
     let f = doc.format;
-    let regions = |v: &[&str]| Script::Query(v.iter().map(|s| s.to_string()).collect());
+    let regions = |label: &'static str, v: &[&str]| Script::Query(label, v.iter().map(|s| s.to_string()).collect());
     let (index, scripts): (Option<IndexData>, Vec<Script>) = match f {
         Format::Bam | Format::SamGz => {
             let idx = parse_index(docs, &doc.name).or_else(|| if f == Format::SamGz { samgz_index(doc) } else { None });
             let mut s = vec![Script::Seq(0), Script::Seq(1), Script::Seq(2), Script::Seq(3)];
             if idx.is_some() {
-                s.push(regions(&["sq0", "sq1:200-300", "sq0:1-20"]));
-                s.push(regions(&["sq1", "sq2", "nope", "sq0:100-130"]));
+                s.push(regions("three-regions", &["sq0", "sq1:200-300", "sq0:1-20"]));
+                s.push(regions("unknown-and-empty-references", &["sq1", "sq2", "nope", "sq0:100-130"]));
                 // the same region twice, two regions that share their first chunk, and a region query
                 // after query_unmapped after the same region query (stale seek state in the async reader)
-                s.push(regions(&["sq0", "sq0"]));
-                s.push(regions(&["sq0:1-20", "sq0:10-40"]));
-                s.push(regions(&["sq0", "*", "sq0"]));
+                s.push(regions("same-region-twice", &["sq0", "sq0"]));
+                s.push(regions("regions-sharing-first-chunk", &["sq0:1-20", "sq0:10-40"]));
+                s.push(regions("region-unmapped-same-region", &["sq0", "*", "sq0"]));
                 s.push(Script::Unmapped);
                 s.push(Script::Mixed("sq0:15-125".into()));
             }
@@ -261,10 +284,10 @@ pub fn make_rcase(docs: &[Doc], doc: &Doc) -> Option<RCase> {
             let idx = parse_index(docs, &doc.name);
             let mut s = vec![Script::Seq(0), Script::Seq(2)];
             if idx.is_some() {
-                s.push(regions(&["sq0", "sq1:200-300", "sq0:1-20"]));
-                s.push(regions(&["sq1", "sq2", "sq0:30-40"]));
-                s.push(regions(&["sq0", "sq0"]));
-                s.push(regions(&["sq0:1-20", "sq0:10-40"]));
+                s.push(regions("three-regions", &["sq0", "sq1:200-300", "sq0:1-20"]));
+                s.push(regions("empty-references", &["sq1", "sq2", "sq0:30-40"]));
+                s.push(regions("same-region-twice", &["sq0", "sq0"]));
+                s.push(regions("regions-sharing-first-chunk", &["sq0:1-20", "sq0:10-40"]));
                 s.push(Script::Mixed("sq0:15-125".into()));
             }
             (idx, s)
@@ -273,10 +296,10 @@ pub fn make_rcase(docs: &[Doc], doc: &Doc) -> Option<RCase> {
             let idx = parse_index(docs, &doc.name);
             let mut s = vec![Script::Seq(0), Script::Seq(1), Script::Seq(2), Script::Seq(3)];
             if idx.is_some() {
-                s.push(regions(&["sq0", "sq1:200-300", "sq0:1-20"]));
-                s.push(regions(&["sq1", "sq2", "sq0:30-40"]));
-                s.push(regions(&["sq0", "sq0"]));
-                s.push(regions(&["sq0:1-20", "sq0:10-40"]));
+                s.push(regions("three-regions", &["sq0", "sq1:200-300", "sq0:1-20"]));
+                s.push(regions("empty-references", &["sq1", "sq2", "sq0:30-40"]));
+                s.push(regions("same-region-twice", &["sq0", "sq0"]));
+                s.push(regions("regions-sharing-first-chunk", &["sq0:1-20", "sq0:10-40"]));
                 s.push(Script::Mixed("sq0:15-125".into()));
             }
             (idx, s)
@@ -286,9 +309,9 @@ pub fn make_rcase(docs: &[Doc], doc: &Doc) -> Option<RCase> {
             let idx = parse_index(docs, &doc.name);
             let mut s = vec![Script::Seq(0), Script::Seq(1)];
             if idx.is_some() {
-                s.push(regions(&["sq0", "sq1:200-300", "sq0:1-20"]));
-                s.push(regions(&["sq1", "nope"]));
-                s.push(regions(&["sq0", "sq0"]));
+                s.push(regions("three-regions", &["sq0", "sq1:200-300", "sq0:1-20"]));
+                s.push(regions("unknown-reference", &["sq1", "nope"]));
+                s.push(regions("same-region-twice", &["sq0", "sq0"]));
                 s.push(Script::Unmapped);
             }
             (idx, s)
@@ -309,7 +332,7 @@ pub fn make_rcase(docs: &[Doc], doc: &Doc) -> Option<RCase> {
         name: doc.name.clone(),
         bytes: doc.bytes.clone(),
         vmap,
-        index,
+        index: index.map(Arc::new),
         scripts,
         expect: Vec::new(),
         lim,
@@ -363,7 +386,7 @@ macro_rules! nx {
 
 macro_rules! with_binning_index {
     ($case:expr, $idx:ident, $body:expr) => {
-        match $case.index.as_ref() {
+        match $case.index.as_deref() {
             Some(IndexData::Linear($idx)) => $body,
             Some(IndexData::Binned($idx)) => $body,
             _ => unreachable!("script needs a binning index"),
@@ -465,7 +488,7 @@ macro_rules! indexed_scripts {
     ($m:ident, $t:ident, $r:ident, $vm:ident, $case:ident, $script:ident, $header:ident, $render:expr, $unmapped:tt) => {{
         match $script {
             Script::Seq(_) => unreachable!(),
-            Script::Query(regions) => {
+            Script::Query(_, regions) => {
                 for region in regions {
                     if region == "*" {
                         // `query_unmapped` between region queries (it seeks through `seek()`, not `poll_seek`)
@@ -809,8 +832,8 @@ macro_rules! cram_body {
                     ci += 1;
                 }
             }
-            Script::Query(regions) => {
-                let Some(IndexData::Crai(idx)) = $case.index.as_ref() else { unreachable!() };
+            Script::Query(_, regions) => {
+                let Some(IndexData::Crai(idx)) = $case.index.as_deref() else { unreachable!() };
                 for region in regions {
                     let parsed: Region = region.parse().expect("region literal");
                     match $r.query(&header, idx, &parsed) {
@@ -826,7 +849,7 @@ macro_rules! cram_body {
                 }
             }
             Script::Unmapped => {
-                let Some(IndexData::Crai(idx)) = $case.index.as_ref() else { unreachable!() };
+                let Some(IndexData::Crai(idx)) = $case.index.as_deref() else { unreachable!() };
                 match aw!($m, $r.query_unmapped(&header, idx)) {
                     Err(e) => t.err("query_unmapped", &e),
                     Ok(q) => {
@@ -1232,7 +1255,10 @@ pub fn compare(ch: &Chooser, case: &RCase, script: &Script, got: &Tr, how: &dyn 
             continue;
         }
         let kind = line_kind(e);
-        let symptom = if line_kind(a) != kind {
+        let symptom = if kind == "q" && a.starts_with("query") && a.ends_with(|c: char| c.is_ascii_digit() || c == 'e') && a.contains(" done") {
+            // the sync query yields a record where the async query is already exhausted
+            "async-query-ends-early".to_string()
+        } else if line_kind(a) != kind {
             format!("outcome-differs-async-{}", line_kind(a))
         } else if strip_vpos(e) == strip_vpos(a) {
             "virtual-position-differs".to_string()
@@ -1284,7 +1310,7 @@ pub fn compare(ch: &Chooser, case: &RCase, script: &Script, got: &Tr, how: &dyn 
 fn describe(case: &RCase, script: &Script, w: usize, src: &str) -> String {
     let what = match script {
         Script::Seq(_) => String::new(),
-        Script::Query(r) => format!(" regions={r:?}"),
+        Script::Query(_, r) => format!(" regions={r:?}"),
         Script::Unmapped => String::new(),
         Script::Mixed(r) => format!(" region={r}"),
     };
@@ -1430,7 +1456,7 @@ fn finish_reader(ch: &Chooser, case: &RCase, script: &Script, caught: Caught, de
     ch.desc(|| how(Some(&info)));
     match script {
         Script::Seq(_) => ch.tag("script:sequential"),
-        Script::Query(_) => ch.tag("script:query"),
+        Script::Query(..) => ch.tag("script:query"),
         Script::Unmapped => ch.tag("script:query_unmapped"),
         Script::Mixed(_) => ch.tag("script:read-query-read"),
     }
